@@ -222,7 +222,7 @@ class Ctx:
         ev = {"property_id": self.pid, "tier": self.tier, "seed": self.seed, "level": LEVEL,
               "coverage": cov, "assumptions": self.assumptions,
               "wall_s": round(time.time() - self.t0, 2), "violations": len(self.violations)}
-        if not self.replay_mode:
+        if not self.replay_mode and "VERIF_REPO" not in os.environ:    # evidence is about /repo only
             (VERIF / "evidence").mkdir(exist_ok=True)
             (VERIF / "evidence" / f"{self.pid}.json").write_text(
                 json.dumps(ev, indent=1, sort_keys=True, default=str))
